@@ -130,7 +130,7 @@ func (f *MemFile) Chown(uid, gid int) error {
 		return &fs.PathError{Op: op, Path: f.name, Err: f.vfs.err.OpNotPermitted}
 	}
 
-	nd.setOwner(uid, gid)
+	nd.setOwner(uid, gid, f.vfs.User())
 
 	return nil
 }
@@ -608,6 +608,7 @@ func (f *MemFile) Truncate(size int64) error {
 	nd.mu.Lock()
 
 	nd.truncate(size)
+	nd.removePrivs(f.vfs.User())
 	nd.mtime = time.Now().UnixNano()
 
 	nd.mu.Unlock()
@@ -684,6 +685,7 @@ func (f *MemFile) Write(b []byte) (n int, err error) {
 		n = len(b)
 	}
 
+	nd.removePrivs(f.vfs.User())
 	nd.mtime = time.Now().UnixNano()
 
 	nd.mu.Unlock()
@@ -760,6 +762,7 @@ func (f *MemFile) WriteAt(b []byte, off int64) (n int, err error) {
 
 	n = copy(nd.data[off:], b)
 
+	nd.removePrivs(f.vfs.User())
 	nd.mtime = time.Now().UnixNano()
 
 	nd.mu.Unlock()
